@@ -199,6 +199,13 @@ func corpus() []*Scenario {
 		sc.RandBits = bits
 		out = append(out, sc)
 	}
+	// random router whose third category shares the UUID of the first: the draw 0.9 selects the third one
+	// (fixed: random router routes via the category it drew, not via the first category with that UUID)
+	sc = base("random")
+	std(sc, 3)
+	sc.Cats[2].UUID = sc.Cats[0].UUID
+	sc.RandBits = uint64(math.Round(0.9 * float64(one)))
+	out = append(out, sc)
 	// random router behind a wait with a timeout
 	sc = base("random")
 	std(sc, 3)
